@@ -40,6 +40,7 @@ func (w *Worker) newPath(prefix []int64, harness string) *Path {
 		env:     map[string]string{},
 		harness: harness,
 		closed:  map[chan value]bool{},
+		params:  map[string]int{},
 	}
 	p.sess = w.newSession()
 	return p
@@ -114,6 +115,17 @@ func RegisterSV(ld *Loaded) {
 		nm := p.inputName(name)
 		p.inputs = append(p.inputs, Input{Name: nm, Kind: "choice", N: c})
 		return c
+	})
+	reg("Param", func(fr *frame, args []value) value {
+		p := fr.i.path
+		name := p.concreteString(args[1], "param name")
+		v := int(asInt64(args[2]))
+		if p.w.ex.opt.Tier == "thorough" {
+			v = int(asInt64(args[3]))
+		}
+		p.params[name] = v
+		p.inputs = append(p.inputs, Input{Name: p.inputName("param:" + name), Kind: "choice", N: v})
+		return v
 	})
 	reg("Assume", func(fr *frame, args []value) value {
 		p := fr.i.path
@@ -253,6 +265,9 @@ func (p *Path) assert(site string, cond value) {
 		c = x.t
 	default:
 		panic(engineBug{"assert: non-boolean condition"})
+	}
+	if p.w.ex.opt.Canary {
+		c = p.ts.Bool(false)
 	}
 	if c.isC && c.boolVal() {
 		return
@@ -528,6 +543,7 @@ func (w *Worker) runPath(ld *Loaded, harness string, prefix []int64) (res *PathR
 	res.Reached = p.reached
 	res.Forbidden = p.forbidden
 	res.Funcs = p.funcs
+	res.Params = p.params
 	if res.End == "ok" || res.End == "panic" {
 		func() {
 			defer func() {
